@@ -152,6 +152,9 @@ def run(chk):
     chk.floor('R10.4', 'constructor/setter runs', nc, 2 + 3 + 2 + 3 + 5)
     from . import spline
     spline.build_checks(chk, lib, 'R10.3')
+    # 'strictly increasing (hence NaN-free)': the classifier the builders rely on never calls NaN data Rising (shared with C12)
+    from . import c12
+    c12.analyse(chk, lib, set_text=False)
     chk.exhaustive = True
     chk.sample({"scenario": "2d ndim=big short=[False, True] len=x ok,y bad mono=x Rs,y N -> Err(NotEnoughData|ShapeError|Monotonic)"})
     chk.explanation = ("build() of both builders touches its inputs only through finitely many yes/no requirement tests, so its behaviour is a "
